@@ -567,18 +567,17 @@ func checkLimit(limit Limit, existingUserName map[string]bool, existingGroupName
 		return fmt.Errorf("invalid MaxApplications settings for limit %s exceed current the queue MaxApplications", limit.Limit)
 	}
 
-	// If queue is RootQueue, the queue.Resources.Max will be null, we don't need to check for root queue
+	// The root queue cannot have a maximum: an undefined maximum does not limit anything in the check below. The
+	// check must not be skipped based on the name, a queue below the root can be called root too.
 	// But we may need to check the root resource during loading the config and after partition resource loading when update node
-	if queue.Name != RootQueue {
-		queueMaxResource, err := resources.NewResourceFromConf(queue.Resources.Max)
-		if err != nil {
-			log.Log(log.Config).Debug("resource parsing failed",
-				zap.Error(err))
-			return fmt.Errorf("parse queue %s max resource failed: %s", queue.Name, err.Error())
-		}
-		if !queueMaxResource.FitInMaxUndef(limitResource) {
-			return fmt.Errorf("invalid MaxResources settings for limit %s exeecd current the queue MaxResources", limit.Limit)
-		}
+	queueMaxResource, err := resources.NewResourceFromConf(queue.Resources.Max)
+	if err != nil {
+		log.Log(log.Config).Debug("resource parsing failed",
+			zap.Error(err))
+		return fmt.Errorf("parse queue %s max resource failed: %s", queue.Name, err.Error())
+	}
+	if !queueMaxResource.FitInMaxUndef(limitResource) {
+		return fmt.Errorf("invalid MaxResources settings for limit %s exeecd current the queue MaxResources", limit.Limit)
 	}
 
 	return nil
